@@ -144,6 +144,13 @@ func TestC06(t *testing.T) {
 			case "ch_plain", "ch_no_ech":
 				i := out2.Find(hello.ExtECH)
 				out2.Exts = append(out2.Exts[:i], out2.Exts[i+1:]...)
+				if kind == "ch_plain" && rapid.Bool().Draw(t, "plain_without_tls13") {
+					// a hello from a client that gave up on TLS 1.3 altogether: no ECH extension and no
+					// supported_versions either - what is missing is still the ECH extension
+					if j := out2.Find(hello.ExtSupportedVersions); j >= 0 {
+						out2.Exts = append(out2.Exts[:j], out2.Exts[j+1:]...)
+					}
+				}
 				r.bytes = hello.Record(22, 0x0303, out2.Message())
 				return r
 			case "ch_outer_no_tls13":
